@@ -75,7 +75,7 @@ def obligations(tier):
                                             '_weight': 10 + 50 * deep})
                                 if place == 'client' and codes == 'one' and excs == 'timeout' and req == 'single' and ret == RETRYABLE_PAIRS[0] and term == TERMINAL_PAIRS[0]:
                                     # the other backoff families through the real loop, with concrete parameters that reach the cap
-                                    for bk in ('exp_decay', 'exp_spike', 'fib'):
+                                    for bk in ('exp_decay', 'exp_spike', 'fib', 'exp_zero'):
                                         obs.append({'h': 'loop', 'kind': kind, 'req': req, 'place': place, 'codes': codes, 'excs': excs,
                                                     'ret': r, 'term': list(term), 'nmax': nmax, 'backoff': bk, '_weight': 30})
                                 if place in ('client', 'request') and codes == 'one' and excs == 'timeout' and req != 'notif':
@@ -149,6 +149,9 @@ def h_loop(ob):
             spikes = [0.0, 4.0, 0.0, 0.0, -1.0, 0.0, 0.0, 0.0]
             backoff = retry_mod.ExponentialBackoff(attempts=n, base=1.0, factor=2.0, max_value=5.0, jitter=lambda: spikes[jitter_index()])
             delay = lambda k: min(5.0, 2.0 ** k + spikes[k])  # noqa: E731
+        elif bk == 'exp_zero':      # a cap of 0 is a cap (round 11, S204): every pause is 0
+            backoff = retry_mod.ExponentialBackoff(attempts=n, base=1.0, factor=2.0, max_value=0.0)
+            delay = lambda k: 0.0  # noqa: E731
         elif bk == 'fib':
             fibs = [1, 2, 3, 5, 8, 13, 21, 34]
             backoff = retry_mod.FibonacciBackoff(attempts=n, multiplier=1.0, max_value=4.0, jitter=jitter)
